@@ -338,14 +338,14 @@ class NamespaceClass(Namespace[symtable.Class]):
             )
 
 
-if sys.version_info < (3, 12):
-
-    def _comp_check(symt: symtable.Function):
-        if symt.get_name() not in ["listcomp", "genexpr", "setcomp", "dictcomp"]:
-            return False
-        if ".0" not in symt.get_parameters():
-            return False
-        return True
+def _comp_check(symt: symtable.Function):
+    # before 3.12 every comprehension has its own symbol table,
+    # since 3.12 (PEP 709) only generator expressions have one
+    if symt.get_name() not in ["listcomp", "genexpr", "setcomp", "dictcomp"]:
+        return False
+    if ".0" not in symt.get_parameters():
+        return False
+    return True
 
 
 def update_globals_from_lambda_or_comp(symt: symtable.Function, stack: list[Namespace]):
@@ -403,10 +403,9 @@ def generate_nsp(symt: symtable.SymbolTable, configs: Configs):
                 if child_symt.get_name() == "lambda":
                     update_globals_from_lambda_or_comp(child_symt, generate_stack)
                     continue
-                if sys.version_info < (3, 12):
-                    if _comp_check(child_symt):
-                        update_globals_from_lambda_or_comp(child_symt, generate_stack)
-                        continue
+                if _comp_check(child_symt):
+                    update_globals_from_lambda_or_comp(child_symt, generate_stack)
+                    continue
 
                 generate_stack.append(NamespaceFunction(child_symt, generate_stack))
             elif _symtable_is_class(child_symt):
